@@ -139,7 +139,7 @@ package lazy
 //@   ensures len(c.flatTrans) != old(len(c.flatTrans)) ==> 4 * old(len(c.flatTrans)) < c.capacityBytes
 //@   ensures len(c.flatTrans) <= max(old(len(c.flatTrans)), int(c.nextID))
 //@   ensures len(c.flatTrans) <= old(len(c.flatTrans)) + 2 * c.stride || len(c.flatTrans) <= int(c.nextID)
-//@   ensures c.stride == old(c.stride) && c.capacityBytes == old(c.capacityBytes) && c.nextID >= old(c.nextID)
+//@   ensures c.stride == old(c.stride) && c.capacityBytes == old(c.capacityBytes) && c.nextID >= old(c.nextID) && c.clearCount == old(c.clearCount)
 //@   ensures freeRowsInvalid(c)
 //@   ensures forall j :: old(len(c.flatTrans)) <= j && j < len(c.flatTrans) ==> c.flatTrans[j] == InvalidState
 //@   loop 1: invariant 0 <= i && i <= growth && len(c.flatTrans) == old(len(c.flatTrans)) + i && off(c.flatTrans) == 0
@@ -304,3 +304,18 @@ package lazy
 //@   after call SearchAtAnchored#*: ghost rec = lastcall
 //@   ensures hard && !cleared ==> result == fwdRef(d.nfa, haystack, at)
 //@   ensures hard && cleared ==> again && result == rec
+
+// ---- tryClearCache: a clear is counted, refused once MaxCacheClears is reached (bounds the restarts of a search: C05),
+// and when it happens no transition of the previous epoch stays readable (C13) ----
+//@ trusted func LookSetFromStartKind
+//@ trusted func NewStateWithStride
+//@   ensures result != nil && fresh(result) && result.id == id
+//@ trusted func ComputeStateKeyWithWord
+//@ trusted func (*nfa.NFA).StartUnanchored
+//@ func (*DFA).tryClearCache
+//@   props C05 C13
+//@   opt safety=off
+//@   requires d != nil && cache != nil && cache.clearCount >= 0
+//@   modifies cache.*, cache.flatTrans[*], family H:dfa/lazy.State, family E:*dfa/lazy.State, family E:dfa/lazy.StateID
+//@   ensures result != nil ==> cache.clearCount == old(cache.clearCount) && old(cache.clearCount) >= d.config.MaxCacheClears
+//@   ensures result == nil ==> cache.clearCount == old(cache.clearCount) + 1 && old(cache.clearCount) < d.config.MaxCacheClears
